@@ -262,32 +262,70 @@ theorem nodev (t : Tree) : ∀ (c : Nat) (f : Flags) (i : Bool) (K : KSt),
         intro hd
         obtain ⟨a1, a2⟩ := hb hd
         rw [a2]; exact ⟨a1, rfl⟩
-  | native o fl cb ih =>
+  | native inner o fl cb k ih ihk =>
     intro c f i K
     unfold NoDev
     simp only [sp, spK]
     simp only [KSt.st]
-    by_cases hc : (f.r && f.c) = true
+    by_cases hc : (inner || (f.r && f.c)) = true
     · simp only [hc, if_true]
-      cases hn : natStep o c (f.and fl) K.σ.get with
+      generalize (if inner = true then f else f.and fl) = f'
+      cases hn : natStep o c f' K.σ.get with
       | none => intro hd; exact ⟨hd, rfl⟩
       | some out =>
         simp only
+        -- the rest of the method in the frame
+        have tail : ∀ K2 : KSt,
+            ((match spK k c f' false K2 with
+              | .norm s3 => if (!inner && i && f'.mut && s3.exc) = true then Res.norm { K with exc := true, dev := true } else .norm s3
+              | .thrown s3 => .fault s3
+              | .fault s3 => .fault s3) : Res KSt).st.dev = false →
+            K2.dev = false ∧
+              (match sp k c f' K2.st with
+                | .norm s3 => Res.norm s3 | .thrown s3 => .fault s3 | .fault s3 => .fault s3) =
+              Res.map KSt.st (match spK k c f' false K2 with
+                | .norm s3 => if (!inner && i && f'.mut && s3.exc) = true then Res.norm { K with exc := true, dev := true } else .norm s3
+                | .thrown s3 => .fault s3
+                | .fault s3 => .fault s3) := by
+          intro K2
+          have hk := ihk c f' false K2
+          unfold NoDev at hk
+          cases hrk : spK k c f' false K2 with
+          | norm s3 =>
+            rw [hrk] at hk
+            simp only [Res.st, Res.map] at hk
+            by_cases hcc : (!inner && i && f'.mut && s3.exc) = true
+            · simp only [hcc, if_true, Res.st]; intro hd; exact absurd hd (by simp)
+            · simp only [hcc, if_false, Res.st]
+              intro hd
+              obtain ⟨a1, a2⟩ := hk hd
+              rw [a2]; exact ⟨a1, rfl⟩
+          | thrown s3 =>
+            rw [hrk] at hk
+            simp only [Res.st, Res.map] at hk ⊢
+            intro hd
+            obtain ⟨a1, a2⟩ := hk hd
+            rw [a2]; exact ⟨a1, rfl⟩
+          | fault s3 =>
+            rw [hrk] at hk
+            simp only [Res.st, Res.map] at hk ⊢
+            intro hd
+            obtain ⟨a1, a2⟩ := hk hd
+            rw [a2]; exact ⟨a1, rfl⟩
+        simp only [spPhase, spKPhase]
         cases hcb : out.cb with
         | none =>
           simp only
-          by_cases hcc : (i && (f.and fl).mut && K.exc) = true
-          · simp only [hcc, if_true, Res.st]; intro hd; exact absurd hd (by simp)
-          · simp only [hcc, if_false, Res.st]; intro hd; exact ⟨hd, rfl⟩
+          exact tail { K with σ := out.ws ++ K.σ, ev := K.ev ++ out.evs }
         | some to =>
           simp only
           by_cases hab : out.cbAbort = true
           · simp only [hab, if_true]; intro hd; exact ⟨hd, rfl⟩
-          simp only [hab, if_false]
-          have hb := ih to (f.and fl) false { K with σ := out.ws ++ K.σ, ev := K.ev ++ out.evs }
+          simp only [hab, if_false, Bool.false_eq_true]
+          have hb := ih to f' false { K with σ := out.ws ++ K.σ, ev := K.ev ++ out.evs }
           unfold NoDev at hb
           simp only [KSt.st] at hb
-          cases hr : spK cb to (f.and fl) false { K with σ := out.ws ++ K.σ, ev := K.ev ++ out.evs } with
+          cases hr : spK cb to f' false { K with σ := out.ws ++ K.σ, ev := K.ev ++ out.evs } with
           | norm s2 =>
             rw [hr] at hb
             simp only [Res.st, Res.map] at hb
@@ -295,8 +333,10 @@ theorem nodev (t : Tree) : ∀ (c : Nat) (f : Flags) (i : Bool) (K : KSt),
             · simp only [hcc, if_true, Res.st]; intro hd; exact absurd hd (by simp)
             · simp only [hcc, if_false, Res.st]
               intro hd
-              obtain ⟨a1, a2⟩ := hb hd
-              rw [a2]; exact ⟨a1, rfl⟩
+              obtain ⟨t1, t2⟩ := tail s2 hd
+              obtain ⟨b1, b2⟩ := hb t1
+              rw [b2]
+              exact ⟨b1, t2⟩
           | thrown s2 =>
             rw [hr] at hb
             simp only [Res.st, Res.map] at hb ⊢
